@@ -780,7 +780,8 @@ def beat_construction(ctx: Ctx) -> None:
     rt = ci.methods.get("round_to_tick")
     rr = [r for r in body_walk(rt.node) if isinstance(r, ast.Return)] if rt else []
     s = rt.param_names()[0] if rt else "self"
-    okr = len(rr) == 1 and ast.unparse(rr[0].value) in (f"Beat(int(round({s} * BEAT_SUBDIVISION)), BEAT_SUBDIVISION)", f"Beat(round({s} * BEAT_SUBDIVISION), BEAT_SUBDIVISION)")
+    from ..flow import inline as _inl
+    okr = len(rr) == 1 and ast.unparse(_inl(rr[0].value, rt)) in (f"Beat(int(round({s} * BEAT_SUBDIVISION)), BEAT_SUBDIVISION)", f"Beat(round({s} * BEAT_SUBDIVISION), BEAT_SUBDIVISION)")
     ctx.expect("R-POLY", ci, "round_to_tick is round(self * 48) / 48", okr, "", f"{src(rr[0].value) if rr else ''}", node=rt.node if rt else ci.node)
     tk = ci.methods.get("tick")
     rr = [r for r in body_walk(tk.node) if isinstance(r, ast.Return)] if tk else []
@@ -811,8 +812,11 @@ def beatvalues_codec(ctx: Ctx, judge_source: bool = True) -> None:
     rr = [r for r in body_walk(st.node) if isinstance(r, ast.Return)]
     okw = False
     if len(rr) == 1 and isinstance(rr[0].value, ast.Call) and isinstance(rr[0].value.func, ast.Attribute) and rr[0].value.func.attr == "join":
+        from ..flow import inline as _inl2
         sep = try_ev(ctx, st, rr[0].value.func.value)
-        ge = rr[0].value.args[0] if rr[0].value.args else None
+        ge = _inl2(rr[0].value.args[0], st) if rr[0].value.args else None
+        if isinstance(ge, ast.ListComp):
+            ge = ast.GeneratorExp(elt=ge.elt, generators=ge.generators)  # join consumes either completely, in order
         if isinstance(sep, str) and isinstance(ge, ast.GeneratorExp) and len(ge.generators) == 1 and not ge.generators[0].ifs and isinstance(ge.elt, ast.JoinedStr):
             v = ge.generators[0].target.id
             parts = [x.value if isinstance(x, ast.Constant) else "{" + ast.unparse(x.value) + ("" if (x.format_spec is None and x.conversion in (-1, 115)) else ":<format>") + "}" for x in ge.elt.values]
